@@ -42,7 +42,7 @@ def read_wrappers(outputs):
 class C03(C.PipelineCheck):
     id = 'C03'
     title = 'Exactly one wrapper per discovered command, invoking exactly its Rust name'
-    required_covers = ('layout:included', 'layout:excluded', 'attr:command', 'attr:other', 'item:nested', 'unparsable', 'name:symbolic', 'name:raw', 'root-named-target')
+    required_covers = ('layout:included', 'layout:excluded', 'attr:command', 'attr:other', 'item:nested', 'unparsable', 'name:symbolic', 'name:raw', 'same-name', 'root-named-target')
 
     def bounds(self, tier):
         q = tier != 'thorough'
@@ -81,6 +81,9 @@ class C03(C.PipelineCheck):
             yield ('unparsable%d' % v, dict(kind='unparsable', v=v))
         for n in range(1, (4 if q else 6) + 1):
             yield ('name/%d' % n, dict(kind='name', n=n))
+        # the same command name in two files / under two cfg attributes: every annotated function is a command of its own
+        for v in range(3):
+            yield ('same-name/%d' % v, dict(kind='same-name', v=v))
         # commands declared with a raw identifier (`fn r#type`): Tauri registers them under the identifier's text, r# included
         for n in ((2, 4) if q else (2, 3, 4, 5, 6)):
             yield ('rawname/%d' % n, dict(kind='rawname', n=n))
@@ -99,7 +102,7 @@ class C03(C.PipelineCheck):
         def body(e):
             mode = ('none', 'zod')[e.choose(2)]
             e.order_mode = 'scoped'
-            e.order_all_in = SCOPE if kind not in ('name', 'attr', 'rawname') else set()
+            e.order_all_in = SCOPE if kind not in ('name', 'attr', 'rawname', 'same-name') else set()
             e.order_fallback = ('insertion', 'reverse')[e.choose(2)]
             holes = {}
             files = {'src/main.rs': cmd % 'alpha', 'src/lib.rs': 'pub fn helper() {}\n' + cmd % 'beta'}
@@ -221,6 +224,20 @@ class C03(C.PipelineCheck):
                     expected = [x for x in expected if x.py() != 'beta']
                 e.cover('unparsable')
                 tag = 'unparsable:%d' % which
+            elif kind == 'same-name':
+                v = p['v']
+                if v == 0:      # identical signature in two files
+                    files['src/platform/linux.rs'] = '#[tauri::command]\npub fn battery() -> Result<u8, String> { Ok(1) }\n'
+                    files['src/platform/windows.rs'] = '#[tauri::command]\npub fn battery() -> Result<u8, String> { Ok(2) }\n'
+                elif v == 1:    # cfg variants in one file
+                    files['src/gamma.rs'] = ('#[cfg(desktop)]\n#[tauri::command]\npub fn battery(tab: String) -> Result<(), String> { Ok(()) }\n'
+                                             '#[cfg(mobile)]\n#[tauri::command]\npub fn battery(tab: String) -> Result<(), String> { Ok(()) }\n')
+                else:           # same name, different signatures
+                    files['src/gamma.rs'] = '#[tauri::command]\npub fn battery(a: i32) -> i32 { a }\n'
+                    files['src/sub/delta.rs'] = '#[tauri::command]\npub fn battery(b: String) -> String { b }\n'
+                expected += [Str('battery'), Str('battery')]
+                e.cover('same-name')
+                tag = 'same-name:%d' % v
             elif kind == 'rawname':
                 nm0 = sym.sym_str('n', p['n'], 'abcdefghijklmnopqrstuvwxyz')
                 for w in ('self', 'crate', 'super'):
@@ -272,9 +289,10 @@ class C03(C.PipelineCheck):
             show = lambda m: 'wrappers invoke %s, expected %s' % (sorted(PL.concretize_str(m, x[1]) for x in ws), sorted(PL.concretize_str(m, x) for x in expected))
             for x in expected:
                 hits = [wv for wv in ws if e.decide(V.str_eq(wv[1], x))]
-                if len(hits) == 0:
+                want = len([y for y in expected if e.decide(V.str_eq(y, x))])     # the same name may be a command in two files
+                if len(hits) < want:
                     ctx.violation(e, base + '/missing-wrapper', 'every command has a wrapper invoking its Rust name', True, wit, show)
-                elif len(hits) > 1:
+                elif len(hits) > want:
                     ctx.violation(e, base + '/duplicate-wrapper', 'exactly one wrapper per command', True, wit, show)
             for wv in ws:
                 if not any(e.decide(V.str_eq(wv[1], x)) for x in expected):
@@ -343,11 +361,11 @@ class C03(C.PipelineCheck):
                     return kind == 'unreadable'
                 got = sorted(x[1].py() for x in ws)
                 exp = w['expected']
-                if kind == 'missing-wrapper' and any(x not in got for x in exp):
+                if kind == 'missing-wrapper' and any(got.count(x) < exp.count(x) for x in exp):
                     return True
                 if kind == 'spurious-wrapper' and any(x not in exp for x in got):
                     return True
-                if kind == 'duplicate-wrapper' and len(set(got)) != len(got):
+                if kind == 'duplicate-wrapper' and any(got.count(x) > exp.count(x) for x in exp):
                     return True
                 if kind == 'identifier-collision' and len(set(x[0].py() for x in ws)) != len(ws):
                     return True
